@@ -9,8 +9,7 @@ package sample
 // a sampler, which only package sample can see.
 //
 // Observation: for every sampler a worker holds, the dynsampler object behind
-// it (pointer identity), whether the factory's registry still holds that
-// object, and its GoalThroughputPerSec. A pointer is named by the definition of
+// it (pointer identity) and its GoalThroughputPerSec. A pointer is named by the definition of
 // the slot in which it was first seen and the number of ClearDynsamplers calls
 // before it; a second pointer that would get the same name gets dup > 0, which
 // no specification state has.
@@ -304,18 +303,6 @@ func C12Slots(s Sampler) (rules bool, out []C12Slot) {
 }
 
 
-// C12Registered reports whether the factory's registry holds the dynsampler ptr.
-func C12Registered(f *SamplerFactory, ptr any) bool {
-	f.mutex.Lock()
-	defer f.mutex.Unlock()
-	for _, e := range f.sharedDynsamplers {
-		if e.dynsampler == ptr {
-			return true
-		}
-	}
-	return false
-}
-
 // ---- naming of instances -----------------------------------------------------
 
 type c12Name struct{ cr, ep, dup int }
@@ -374,27 +361,28 @@ func (n *C12Namer) NameNew(d string, s Sampler, clears int) {
 }
 
 // View renders the slots of one cached top-level sampler in the shape of
-// Samplers!SlotView; anything no specification state can have is appended to bad.
-func (n *C12Namer) View(f *SamplerFactory, s Sampler, bad *[]string) []any {
+// Samplers!SlotView; clears is the number of ClearDynsamplers calls so far (an
+// instance named in an earlier epoch has been dropped from the registry: its
+// goal is masked). Anything no specification state can have is appended to bad.
+func (n *C12Namer) View(s Sampler, clears int, bad *[]string) []any {
 	views := []any{}
 	_, slots := C12Slots(s)
 	for _, sl := range slots {
 		if sl.Bad != "" {
 			*bad = append(*bad, sl.Bad)
 		}
-		v := map[string]any{"cr": 0, "ep": 0, "live": false, "goal": 0}
+		v := map[string]any{"cr": 0, "ep": 0, "goal": 0}
 		if sl.Ptr != nil {
 			nm, named := n.names[sl.Ptr]
 			if !named {
 				*bad = append(*bad, "instance that no Decide created")
 			}
-			live := C12Registered(f, sl.Ptr)
-			v["cr"], v["ep"], v["live"] = nm.cr, nm.ep, live
+			v["cr"], v["ep"] = nm.cr, nm.ep
 			if nm.dup > 0 {
 				v["dup"] = nm.dup
 			}
 			if sl.Tput {
-				if live {
+				if nm.ep == clears {
 					v["goal"] = sl.Goal
 				} else {
 					v["goal"] = -1
